@@ -10,7 +10,7 @@ RULE = ("wh.wh with one-hot cue and/or outcome vectors (random injective dimensi
         "spare dimensions) against ndl.ndl(alpha=1, betas=(eta, eta), lambda=1) on the SAME event file - real code on "
         "both sides - for the three flavours, openmp (n_jobs 1..4, n_outcomes_per_job 1..7, several temporary chunk files "
         "incl. more than 10) plus numpy and dict_wh on single-cue/single-outcome events, repeated cues with "
-        "remove_duplicates=False on both sides, outcomes unique within an event; and wh.wh without tables against "
+        "remove_duplicates=False on both sides, outcomes unique within an event, and remove_duplicates=True on both sides with repeated cues and outcomes (alphabets of up to 12 cues / 14 outcomes); and wh.wh without tables against "
         "ndl.ndl (delegation). After renaming dimensions to names the two tables must agree as exact rationals "
         "(|d| <= 1e-9 tolerated as rounding). The theorems are about the models, so a reduced X-wh and X-rw "
         "correspondence runs as well; if one of them breaks while no disagreement between wh and ndl is found the "
@@ -30,20 +30,24 @@ def run(ctx):
         if fl == "r2r" and k % 16 == 10:
             impl, single = "dict_wh", True
         n_cues, n_outs = rng.randint(2, 6), rng.randint(2, 9)
+        if k % 5 == 1 or (k // 4) % 3 == 2:
+            n_cues, n_outs = rng.randint(7, 12), rng.randint(10, 14)      # ids beyond 8: hash-set orders differ
         cues = ["c%d" % i for i in range(n_cues)]
         outs = ["o%d" % i for i in range(n_outs)]
         many_chunks = k % 8 == 5
         n_ev = rng.randint(22, 26) if many_chunks else rng.choice([1, 2, 3, 5, 8, 12])
-        pol = 2 if (k // 4) % 2 == 0 and not single else 0
+        pol = [2, 0, 1][(k // 4) % 3] if not single else 0      # remove_duplicates False / None / True
         es = []
         for _ in range(n_ev):
             if single:
                 es.append([[rng.choice(cues)], [rng.choice(outs)]])
                 continue
-            cs = rng.sample(cues, rng.randint(1, min(3, n_cues)))
-            if pol == 2 and rng.random() < 0.5:
+            cs = rng.sample(cues, rng.randint(1, min(4, n_cues)))
+            if pol in (1, 2) and rng.random() < 0.5:
                 cs.append(cs[0])
-            os_ = rng.sample(outs, rng.randint(1, min(3, n_outs)))       # unique within the event
+            os_ = rng.sample(outs, rng.randint(1, min(4, n_outs)))       # unique within the event ...
+            if pol == 1 and rng.random() < 0.3:
+                os_.append(os_[0])                                       # ... unless both sides remove duplicates
             es.append([cs, os_])
         used_c = sorted({c for cs, _ in es for c in cs})
         used_o = sorted({o for _, os_ in es for o in os_})
